@@ -59,6 +59,13 @@ def run_scenario(args):
             if rr != z3.sat:
                 res["status"] = "inconclusive"
                 res["notes"].append("reachability witness %r is %s (vacuous harness?)" % (label, rr))
+        # nobody may still be waiting for quiescence when the run ended (some inputs/schedules would be unexamined)
+        pq = r.pending_quiesce()
+        if pq is not False:
+            rr, model, dt = r.solve(pq, timeout_ms=tmo)
+            if rr != z3.unsat:
+                res["status"] = "inconclusive"
+                res["notes"].append("for some inputs/schedules the harness never got past verifQuiesce within the explored depth (%s)" % rr)
         # completeness threshold
         if r.quiescent_at is None:
             rr, model, dt = r.solve(r.any_enabled_final, timeout_ms=tmo)
@@ -322,8 +329,9 @@ def main():
             "z3 %s" % z3.get_version_string(),
         ],
         wall_s=round(wall, 2), violations=len(violations))
-    os.makedirs(os.path.join(VERIF, "evidence"), exist_ok=True)
-    with open(os.path.join(VERIF, "evidence", prop + ".json"), "w") as fh:
+    evdir = os.environ.get("VERIF_EVIDENCE_DIR") or os.path.join(VERIF, "evidence")   # (sweeps over seeded changes write elsewhere)
+    os.makedirs(evdir, exist_ok=True)
+    with open(os.path.join(evdir, prop + ".json"), "w") as fh:
         json.dump(ev, fh, indent=1, default=str)
     # ---------------------------------------------------------------- report
     for r in results:
